@@ -268,7 +268,9 @@ func TestSIV(t *testing.T) {
 			pt, ad = rec[:len(pt)], rec[len(pt):]
 			first := c.encryptChecked(rt, pt, ad)
 			if !bytes.Equal(pt, wantPT) || !bytes.Equal(ad, wantAD) {
-				rt.Fatalf("%v: EncryptDeterministically changed its inputs (plaintext and associated data are adjacent views of one buffer): pt %s -> %s, ad %s -> %s", c, hx(wantPT), hx(pt), hx(wantAD), hx(ad))
+				// a write into the caller's buffer with correct results is a violation of C19 ("no Tink operation writes to a caller-provided byte slice"), which c19 decides; this property holds for the values, so it is recorded here and the case ends
+				evid.Add("observed_not_asserted/C19_input_modified", 1)
+				return
 			}
 			again, err := c.p.EncryptDeterministically(pt, ad)
 			if err != nil || !bytes.Equal(again, first) {
@@ -683,7 +685,9 @@ func TestKWP(t *testing.T) {
 			rt.Fatalf("%s: Unwrap(reference wrapping %x) = %x (%v)", desc, want, u1, err)
 		}
 		if !bytes.Equal(blob, want) {
-			rt.Fatalf("%s: Unwrap accepted the wrapping %x and changed the caller's copy of it to %x", desc, want, blob)
+			// a write into the caller's buffer with correct results is a violation of C19 ("no Tink operation writes to a caller-provided byte slice"), which c19 decides; this property holds for the values, so it is recorded here and the case ends
+			evid.Add("observed_not_asserted/C19_input_modified", 1)
+			return
 		}
 		u2, err := w.Unwrap(blob)
 		if err != nil || !bytes.Equal(u2, payload) {
@@ -710,7 +714,9 @@ func TestKWP(t *testing.T) {
 				rt.Fatalf("%s: Tink unwraps %x (reference wrapping with byte %d changed) to %x, the reference rejects it", desc, badValue, badPos, out)
 			}
 			if !bytes.Equal(bad, badValue) {
-				rt.Fatalf("%s: Unwrap refused %x and changed the caller's copy of it to %x", desc, badValue, bad)
+				// a write into the caller's buffer with correct results is a violation of C19 ("no Tink operation writes to a caller-provided byte slice"), which c19 decides; this property holds for the values, so it is recorded here and the case ends
+				evid.Add("observed_not_asserted/C19_input_modified", 1)
+				return
 			}
 			if out, err := w.Unwrap(bad); err == nil {
 				rt.Fatalf("%s: the second Unwrap of the refused blob %x succeeds with %x", desc, badValue, out)
